@@ -287,3 +287,51 @@ Example C04_xml_total_example :
                   (mkmach (init_cfg XData None false) [] [] 0%N) []) = [SSuspend; SSuspend; SSuspend; SScript].
 Proof. exact InstNoPanicX.xnp_ex. Qed.
 Print Assumptions C04_xml_total_example.
+
+(* ------------------------------------------------------------------------------------------------------------
+   The statement C04 wants: the tokenizers in their REAL default configuration - exact_errors = false, the chunked queue
+   (BufferQueue), bulk reads, the SIMD scan of the html data state - terminate and never reach a panic site
+   (Inst/InstTotalDefault.v).  With fuel above the bound the default-mode run never runs out of fuel (TokIR/BulkTerm.v),
+   a regular default-mode run has the log of the reference run (TokIR/BulkSim.v + QueueSim.v), and that log is
+   characterised above.  Caveats as for the reference run: 96 is the driver model's limit of 50 pauses per chunk; html
+   end() may answer the assert site 4 unless the sink never pauses (then the whole log is "done"). *)
+From HV Require Inst.InstBulk Inst.InstTotalDefault.
+
+Theorem C04_html_tokenizer_total_default_mode :
+  forall ent c1 sk, html_sink_ok sk = true ->
+  forall fuel inj chunks s0 last, html_kind_ok s0 = true ->
+  (html_fuel (length (concat chunks) + length chunks * (50 * length inj)) <= fuel)%nat -> (4 <= fuel)%nat ->
+  exists r rest,
+    snd (drive_chunked html_flavour false html_table InstBulk.html_simd ent c1 sk fuel inj chunks
+                       (mkmach (init_cfg s0 last false) [] [] 0%N) []) = r :: rest /\
+    (r = SSuspend \/ r = SPanic 4) /\
+    Forall (fun x => (x = SSuspend \/ x = SScript \/ x = SEncoding) \/ x = SPanic 96) rest.
+Proof. exact InstTotalDefault.html_tokenizer_total_default_mode. Qed.
+Print Assumptions C04_html_tokenizer_total_default_mode.
+
+Theorem C04_html_tokenizer_total_default_mode_no_pauses :
+  forall ent c1 sk, html_sink_ok sk = true ->
+  forall fuel inj chunks s0 last, html_sink_never_pauses sk = true -> html_kind_ok s0 = true ->
+  (html_fuel (length (concat chunks) + length chunks * (50 * length inj)) <= fuel)%nat -> (4 <= fuel)%nat ->
+  Forall (eq SSuspend) (snd (drive_chunked html_flavour false html_table InstBulk.html_simd ent c1 sk fuel inj chunks
+                                           (mkmach (init_cfg s0 last false) [] [] 0%N) [])).
+Proof. exact InstTotalDefault.html_tokenizer_total_default_mode_quiet. Qed.
+Print Assumptions C04_html_tokenizer_total_default_mode_no_pauses.
+
+Theorem C04_xml_tokenizer_total_default_mode :
+  forall simd ent c1 sk fuel inj chunks s0 last, InstNoPanicX.xml_kind_ok s0 = true ->
+  (InstTermX.xml_fuel (length (concat chunks) + length chunks * (50 * length inj)) <= fuel)%nat -> (4 <= fuel)%nat ->
+  exists rest,
+    snd (drive_chunked xml_flavour false xml_table simd ent c1 sk fuel inj chunks
+                       (mkmach (init_cfg s0 last false) [] [] 0%N) []) = SSuspend :: rest /\
+    Forall (fun x => (x = SSuspend \/ x = SScript \/ x = SEncoding) \/ x = SPanic 96) rest.
+Proof. exact InstTotalDefault.xml_tokenizer_total_default_mode. Qed.
+Print Assumptions C04_xml_tokenizer_total_default_mode.
+
+Theorem C04_xml_tokenizer_total_default_mode_no_pauses :
+  forall simd ent c1 sk fuel inj chunks s0 last, sk_quiet sk = true -> InstNoPanicX.xml_kind_ok s0 = true ->
+  (InstTermX.xml_fuel (length (concat chunks) + length chunks * (50 * length inj)) <= fuel)%nat -> (4 <= fuel)%nat ->
+  Forall (eq SSuspend) (snd (drive_chunked xml_flavour false xml_table simd ent c1 sk fuel inj chunks
+                                           (mkmach (init_cfg s0 last false) [] [] 0%N) [])).
+Proof. exact InstTotalDefault.xml_tokenizer_total_default_mode_quiet. Qed.
+Print Assumptions C04_xml_tokenizer_total_default_mode_no_pauses.
